@@ -29,7 +29,7 @@ FLOOR = {"quick": 30, "thorough": 250}
 
 
 def parts(tier):
-    return [{"name": "e2e", "n": 560 if tier == "quick" else 10000}]
+    return [{"name": "e2e", "n": 800 if tier == "quick" else 10000}]
 
 
 @gen.st.composite
